@@ -38,9 +38,9 @@ def tol_for(name):
 DMAX = {'quick': 6, 'thorough': 9}
 
 SM = [-1.2, 0.0, 0.7]        # smooth everywhere
-SMC = [0.7 + 0.3j, -1.2 + 0.5j]
+SMC = [0.7 + 0.3j, -1.2 + 0.5j, 2.3 - 1.1j]
 POSP = [0.3, 1.0, 2.5]
-POSC = [0.7 + 0.3j, 0.4 - 0.6j]
+POSC = [0.7 + 0.3j, 0.4 - 0.6j, -0.7 + 0.4j]
 
 
 def dawson(x):
@@ -60,9 +60,9 @@ def table():
     add('sin', algopy.sin, mp.sin, SM, SMC)
     add('cos', algopy.cos, mp.cos, SM, SMC)
     add('tan', algopy.tan, mp.tan, SM, SMC)
-    add('arcsin', algopy.arcsin, mp.asin, [-0.7, 0.0, 0.4], [0.3 + 0.3j])
-    add('arccos', algopy.arccos, mp.acos, [-0.7, 0.0, 0.4], [0.3 + 0.3j])
-    add('arctan', algopy.arctan, mp.atan, SM, [0.7 + 0.3j])
+    add('arcsin', algopy.arcsin, mp.asin, [-0.7, 0.0, 0.4], [0.3 + 0.3j, 1.5 + 0.5j, -1.3 - 0.4j])
+    add('arccos', algopy.arccos, mp.acos, [-0.7, 0.0, 0.4], [0.3 + 0.3j, 1.5 + 0.5j, -1.3 - 0.4j])
+    add('arctan', algopy.arctan, mp.atan, SM, [0.7 + 0.3j, -0.4 + 1.6j])
     add('sinh', algopy.sinh, mp.sinh, SM, SMC)
     add('cosh', algopy.cosh, mp.cosh, SM, SMC)
     add('tanh', algopy.tanh, mp.tanh, SM, SMC)
